@@ -272,7 +272,7 @@ func allChecks() []CheckSpec {
 			ID: "C12",
 			Harnesses: []HarnessSpec{
 				{Fn: "verifC12Sequence", Lemma: "sequential operation sequences on the real UDPMuxDefault (GetConn, write through a handle, inbound datagram through the real connWorker, RemoveConnByUfrag, handle Close, mux Close) against a reference routing table (owner by canonical address = last writer, connections by ufrag): every inbound datagram grows exactly the reference's destination queue by one byte-identical packet with the true source, no other queue changes; first-contact STUN is routed by the USERNAME prefix only to that ufrag's connection of the source's family; per-connection FIFO; address map and per-connection lists agree with canonical keys; removed/closed connections receive nothing and own no binding",
-					Bounds: "3 (quick) / 4 (thorough) operations after an initial GetConn over 2 ufrags and 3 addresses (two IPv4 and the IPv4-mapped form of the first; 4 operations with an additional IPv6 address exhausted the path budget and are not claimed), datagram = 3 arbitrary bytes or STUN with USERNAME of a known or arbitrary 2-byte ufrag, IPv4 mux socket", MustReach: []string{"written", "delivered", "dropped", "removed", "last-handle-closed", "mux-closed", "done"},
+					Bounds: "3 operations (both tiers; the thorough tier adds the cross-solver pass) after an initial GetConn over 2 ufrags and 3 addresses (two IPv4 and the IPv4-mapped form of the first; 4 operations exhausted a 400k-path budget in 27 min and are not claimed), datagram = 3 arbitrary bytes or STUN with USERNAME of a known or arbitrary 2-byte ufrag, IPv4 mux socket", MustReach: []string{"written", "delivered", "dropped", "removed", "last-handle-closed", "mux-closed", "done"},
 					Cfg: func(c *HarnessCfg, tier int) { c.GoPolicy = "queue" }},
 				{Fn: "verifC12LastWriter", Lemma: "last writer wins for every write history: two connections write to two remote addresses in any order; after every write the address table points at the writer; afterwards a datagram from each address is delivered to the connection that wrote to it last and to no other (dropped if nobody wrote); removing the last writer's ufrag unbinds the address and nothing falls back to the earlier writer",
 					Bounds: "2 ufrags, 2 remote addresses, every sequence of 3 (thorough 4) writes by any handle to any address, symbolic inbound payloads", MustReach: []string{"never-written", "taken-over-or-kept", "done"},
